@@ -146,7 +146,9 @@ func (P *Program) expandAuto(c *Contract, fn *ssa.Function) error {
 		// serializer that sets it) and the grouped-mode switch (never set)
 		"PrintCtx.prefix", "PrintCtx.inGroupedMode",
 		// recorders of what splitFirstAndRestLines answered (C09): only printFirstLineOfMsg's call writes them
-		"ghost.ioRestLines", "ghost.ioEol", "PrintCtx.restLines", "PrintCtx.eol"} {
+		"ghost.ioRestLines", "ghost.ioEol", "PrintCtx.restLines", "PrintCtx.eol",
+		// "the key of the attribute being printed has been written" (C05): set at the key writer's call
+		"ghost.ioKeyed"} {
 		if hasStr(c.NoKeeps, d) {
 			continue
 		}
